@@ -255,7 +255,11 @@ Definition ordered_senders (order : list skey) (s : sys) : list (key * nat) :=
 
 Definition st (l : label) (s : sys) : option sys := step mt l s.
 
-(* ---- one poll of a pending add_match: every point at which it may be left waiting, and the end ---- *)
+(* ---- one poll of a pending add_match: every point at which it may be left waiting, and the end.
+   Passing the `is_empty` check leaves no trace, so "left waiting before the check although msg_senders is free" and "left
+   waiting after it" cannot be told apart; the replay then takes the check as passed (otherwise k pending calls would mean
+   2^k states).  The one place where the difference shows is a reader that has failed meanwhile (msg_senders cleared): there
+   a call taken as "after the check" may still come back with the check's error. ---- *)
 Fixpoint poll_add (fuel : nat) (sid : nat) (s : sys) : list (sys * ares) :=
   match fuel with
   | O => []
@@ -263,20 +267,22 @@ Fixpoint poll_add (fuel : nat) (sid : nat) (s : sys) : list (sys * ares) :=
       match lookup (adds s) sid with
       | None => []
       | Some a =>
-          (s, APending) ::
           match a_pc a with
           | A0 => match st (LAddCheck sid) s with
-                  | Some s1 => match lookup (adds s1) sid with Some _ => poll_add f sid s1 | None => [(s1, AErr)] end
-                  | None => []
+                  | Some s1 => match lookup (adds s1) sid with Some _ => poll_add f sid s1 | None => [(s1, AErr); (s, APending)] end
+                  | None => [(s, APending)]
                   end
-          | A1 => match st (LAddSubs sid) s with
+          | A1 => (s, APending) ::
+                  match senders s with [] => [(with_adds s (del (adds s) sid), AErr)] | _ => [] end ++
+                  match st (LAddSubs sid) s with
                   | Some s1 => match lookup (streams s1) sid with
                                | Some x => [(s1, AOk (cap (chan_at s1 (s_ch x))))]
                                | None => poll_add f sid s1
                                end
                   | None => []
                   end
-          | A2 c => match st (LAddSender sid) s with
+          | A2 c => (s, APending) ::
+                    match st (LAddSender sid) s with
                     | Some s1 => [(s1, AOk (cap (chan_at s1 c)))]
                     | None => []
                     end
@@ -302,39 +308,92 @@ Fixpoint poll_drop (fuel : nat) (sid : nat) (s : sys) : list (sys * ares) :=
       end
   end.
 
-(* ---- one run of the socket reader: it may be left waiting for msg_senders after each read ---- *)
+(* ---- a fingerprint, to merge states that are the same ---- *)
+Definition fp_chan (c : chan item) : list nat :=
+  [length (log c); cap c; if closed c then 1 else 0; length (rcv c)] ++ flat_map (fun p => [fst p; snd p]) (rcv c) ++
+  map (fun it => match it with IMsg m => S (S (m_id m)) | IFail EEof => 0 | IFail EOther => 1 end) (log c).
+Definition fp_key (k : key) : nat := match k with KAll => 0 | KRet => 1 | KErr => 2 | KRule r => 3 + r end.
+Definition fp_pc (p : rmpc) : list nat := match p with R0 => [0] | R1 c => [1; c] end.
+(* a list of lists: no separators needed *)
+Definition fp (s : sys) : list (list nat) :=
+  map fp_chan (chans s) ++
+  [ flat_map (fun p => [fp_key (fst p); snd p]) (senders s);
+    flat_map (fun p => [fst p; e_ref (snd p); e_ch (snd p)]) (subs s);
+    flat_map (fun p => [fst p; match s_rule (snd p) with Some r => S r | None => 0 end; s_ch (snd p); s_from (snd p);
+                        length (s_got (snd p))]) (streams s);
+    flat_map (fun p => [fst p; a_rule (snd p)] ++ match a_pc (snd p) with A0 => [0] | A1 => [1] | A2 c => [2; c] end) (adds s);
+    flat_map (fun p => fst p :: fp_pc (snd p)) (drops s);
+    flat_map (fun p => fst p :: fp_pc (snd p)) (tasks s);
+    match reader s with RIdle => [0] | RHave _ => [1] | RPush _ todo => 2 :: todo | RStopped => [3] end;
+    [length (socket s); length (incoming s); length (dead s)] ].
+
+(* ---- one run of the socket reader.  After each read it may be left waiting for msg_senders.  The order in which it serves
+   the channels is the iteration order of msg_senders last seen, if that is still the table the model has; if the table has
+   changed since (an insertion may rehash everything) and could not be looked at (locked), every order is tried.
+   All the ways the run can go are followed side by side, merging equal states. ---- *)
 Definition rdev_of (it : item) : rdev := match it with IMsg m => RvItem (m_id m) | IFail EEof => RvEof | IFail EOther => RvErr end.
 
-Fixpoint reader_run (fuel : nat) (order : list skey) (s : sys) : list (sys * list rdev) :=
+Fixpoint insert_all (x : nat) (l : list nat) : list (list nat) :=
+  match l with
+  | [] => [[x]]
+  | y :: r => (x :: l) :: map (cons y) (insert_all x r)
+  end.
+Fixpoint perms (l : list nat) : list (list nat) :=
+  match l with
+  | [] => [[]]
+  | x :: r => flat_map (insert_all x) (perms r)
+  end.
+
+Definition order_current (order : list skey) (s : sys) : bool :=
+  Nat.eqb (length order) (length (senders s)) &&
+  forallb (fun q => existsb (skey_eqb (skey_of (fst q))) order) (senders s).
+
+Definition fan_orders (order : list skey) (s : sys) (it : item) : list (list nat) :=
+  let t := targets mt (ordered_senders order s) it in
+  if order_current order s then [t] else if Nat.leb (length t) 5 then perms t else [t].
+
+Inductive rstep := RDone (s : sys) (ev : list rdev) | RMore (s : sys) (ev : list rdev).
+
+(* ev is kept in reverse *)
+Definition reader_advance (order : list skey) (s : sys) (ev : list rdev) : list rstep :=
+  match reader s with
+  | RIdle =>
+      match socket s with
+      | [] => [RDone s (RvWait :: ev)]
+      | it :: _ => match st LRead s with Some s1 => [RMore s1 (rdev_of it :: ev)] | None => [] end
+      end
+  | RHave it =>
+      RDone s ev :: flat_map (fun todo => match st (LFan todo) s with Some s1 => [RMore s1 ev] | None => [] end) (fan_orders order s it)
+  | RPush _ (_ :: _) => match st LPush s with Some s1 => [RMore s1 ev] | None => [RDone s ev] end
+  | RPush _ [] => match st LNext s with Some s1 => [RMore s1 ev] | None => [] end
+  | RStopped => [RDone s ev]
+  end.
+
+Fixpoint list_eqb {A} (f : A -> A -> bool) (a b : list A) : bool :=
+  match a, b with
+  | [], [] => true
+  | x :: a', y :: b' => f x y && list_eqb f a' b'
+  | _, _ => false
+  end.
+
+Fixpoint dedupe_r (seen : list (list (list nat))) (l : list (sys * list rdev)) : list (sys * list rdev) :=
+  match l with
+  | [] => []
+  | p :: r => let f := [length (snd p)] :: fp (fst p) in
+              if existsb (list_eqb (list_eqb Nat.eqb) f) seen then dedupe_r seen r else p :: dedupe_r (f :: seen) r
+  end.
+
+Fixpoint reader_run (fuel : nat) (order : list skey) (front : list (sys * list rdev)) : list (sys * list rdev) :=
   match fuel with
   | O => []
   | S f =>
-      match reader s with
-      | RIdle =>
-          match socket s with
-          | [] => [(s, [RvWait])]
-          | it :: _ => match st LRead s with
-                       | Some s1 => map (fun p => (fst p, rdev_of it :: snd p)) (reader_run f order s1)
-                       | None => []
-                       end
-          end
-      | RHave it =>
-          (s, []) ::
-          match st (LFan (targets mt (ordered_senders order s) it)) s with
-          | Some s1 => reader_run f order s1
-          | None => []
-          end
-      | RPush _ (_ :: _) =>
-          match st LPush s with
-          | Some s1 => reader_run f order s1
-          | None => [(s, [])]                   (* full: waits *)
-          end
-      | RPush _ [] =>
-          match st LNext s with
-          | Some s1 => reader_run f order s1
-          | None => []
-          end
-      | RStopped => [(s, [])]
+      match front with
+      | [] => []
+      | _ =>
+          let steps := flat_map (fun p => reader_advance order (fst p) (snd p)) front in
+          let done := flat_map (fun x => match x with RDone s ev => [(s, rev ev)] | RMore _ _ => [] end) steps in
+          let more := flat_map (fun x => match x with RMore s ev => [(s, ev)] | RDone _ _ => [] end) steps in
+          done ++ reader_run f order (firstn 64 (dedupe_r [] more))
       end
   end.
 
@@ -358,12 +417,6 @@ Definition rdev_eqb (a b : rdev) : bool :=
   match a, b with
   | RvItem x, RvItem y => Nat.eqb x y
   | RvEof, RvEof | RvErr, RvErr | RvWait, RvWait => true
-  | _, _ => false
-  end.
-Fixpoint list_eqb {A} (f : A -> A -> bool) (a b : list A) : bool :=
-  match a, b with
-  | [], [] => true
-  | x :: a', y :: b' => f x y && list_eqb f a' b'
   | _, _ => false
   end.
 Definition ares_eqb (a b : ares) : bool :=
@@ -399,8 +452,9 @@ Definition successors (order : list skey) (next : nat) (e : oev) (s : sys) : lis
   match e with
   | OAdd sid j q r =>
       match r with
-      | ASkip => if fresh s sid then [] else [s]
-      | _ => match st (LAddStart sid (canon j) q) s with
+      | ASkip => if fresh s sid && Nat.ltb (length (adds s)) 2 then [] else [s]
+      | _ => if negb (Nat.ltb (length (adds s)) 2) then [] else
+             match st (LAddStart sid (canon j) q) s with
              | Some s1 => keep ares_eqb r (poll_add 4 sid s1)
              | None => []
              end
@@ -439,7 +493,9 @@ Definition successors (order : list skey) (next : nat) (e : oev) (s : sys) : lis
   | OADrop sid r =>
       match live s sid, r with
       | None, ASkip => [s]
+      | Some x, ASkip => if Nat.ltb (length (drops s)) 2 then [] else [s]
       | Some x, _ =>
+          if negb (Nat.ltb (length (drops s)) 2) then [] else
           match st (LDropStart sid) s with
           | Some s1 => match s_rule x with
                        | None => match r with AOk _ => [s1] | _ => [] end
@@ -471,7 +527,7 @@ Definition successors (order : list skey) (next : nat) (e : oev) (s : sys) : lis
       end
   | OTick ran evs =>
       if ran then
-        keep (list_eqb rdev_eqb) evs (reader_run (3 * length (socket s) + 3 * length (senders s) + 12) order s) ++
+        keep (list_eqb rdev_eqb) evs (reader_run ((length (socket s) + 2) * (length (senders s) + 4) + 8) order [(s, [])]) ++
         match evs with
         | [] => s :: flat_map (fun n => task_run n s) (seq 0 (length (tasks s)))
         | _ => []
@@ -487,29 +543,12 @@ Definition successors (order : list skey) (next : nat) (e : oev) (s : sys) : lis
   | OFail eof => match st (LArrive (IFail (if eof then EEof else EOther))) s with Some s1 => [s1] | None => [] end
   end.
 
-(* ---- a fingerprint, to merge states that are the same ---- *)
-Definition fp_chan (c : chan item) : list nat :=
-  [length (log c); cap c; if closed c then 1 else 0; length (rcv c)] ++ flat_map (fun p => [fst p; snd p]) (rcv c) ++
-  map (fun it => match it with IMsg m => S (S (m_id m)) | IFail EEof => 0 | IFail EOther => 1 end) (log c).
-Definition fp_key (k : key) : nat := match k with KAll => 0 | KRet => 1 | KErr => 2 | KRule r => 3 + r end.
-Definition fp_pc (p : rmpc) : list nat := match p with R0 => [0] | R1 c => [1; c] end.
-Definition fp (s : sys) : list nat :=
-  flat_map (fun c => 1000 :: fp_chan c) (chans s) ++
-  [1001] ++ flat_map (fun p => [fp_key (fst p); snd p]) (senders s) ++
-  [1002] ++ flat_map (fun p => [fst p; e_ref (snd p); e_ch (snd p)]) (subs s) ++
-  [1003] ++ flat_map (fun p => [fst p; match s_rule (snd p) with Some r => S r | None => 0 end; s_ch (snd p); s_from (snd p);
-                                length (s_got (snd p))]) (streams s) ++
-  [1004] ++ flat_map (fun p => [fst p; a_rule (snd p)] ++ match a_pc (snd p) with A0 => [0] | A1 => [1] | A2 c => [2; c] end) (adds s) ++
-  [1005] ++ flat_map (fun p => fst p :: fp_pc (snd p)) (drops s) ++
-  [1006] ++ flat_map (fun p => fst p :: fp_pc (snd p)) (tasks s) ++
-  [1007] ++ match reader s with RIdle => [0] | RHave _ => [1] | RPush _ todo => 2 :: todo | RStopped => [3] end ++
-  [1008; length (socket s); length (incoming s); length (dead s)].
-
-Fixpoint dedupe (seen : list (list nat)) (l : list sys) : list sys :=
+Fixpoint dedupe (seen : list (list (list nat))) (l : list sys) : list sys :=
   match l with
   | [] => []
+  | [s] => match seen with [] => [s] | _ => if existsb (list_eqb (list_eqb Nat.eqb) (fp s)) seen then [] else [s] end
   | s :: r => let f := fp s in
-              if existsb (list_eqb Nat.eqb f) seen then dedupe seen r else s :: dedupe (f :: seen) r
+              if existsb (list_eqb (list_eqb Nat.eqb) f) seen then dedupe seen r else s :: dedupe (f :: seen) r
   end.
 
 Definition order_of (sn : snap) (old : list skey) : list skey :=
@@ -517,17 +556,34 @@ Definition order_of (sn : snap) (old : list skey) : list skey :=
 
 Definition is_msg_ev (e : oev) : bool := match e with OMsg _ _ _ => true | _ => false end.
 
+Definition debug_info (cand : list sys) : bytes :=
+  B "[" ++ dec_of_nat (length cand) ++ B "cand:" ++
+  flat_map (fun s => B "{unf=" ++ dec_of_nat (qlen (chan_at s 0)) ++ B "/" ++ dec_of_nat (nrecv (chan_at s 0)) ++
+                     B ";held=" ++ bool_tok (senders_held s) ++ B ";busy=" ++ bool_tok (subs_busy s) ++
+                     B ";subs=" ++ flat_map (fun p => dec_of_nat (fst p) ++ B ":" ++ dec_of_nat (e_ref (snd p)) ++ B ":" ++
+                                              dec_of_nat (qlen (chan_at s (e_ch (snd p)))) ++ B "/" ++ dec_of_nat (cap (chan_at s (e_ch (snd p)))) ++
+                                              B "/" ++ dec_of_nat (nrecv (chan_at s (e_ch (snd p)))) ++ B ".") (subs s) ++
+                     B ";snd=" ++ flat_map (fun p => dec_of_nat (fp_key (fst p)) ++ B ":" ++ dec_of_nat (qlen (chan_at s (snd p))) ++ B ".") (senders s) ++
+                     B "}") (firstn 4 cand) ++ B "]".
+
+Definition debug_streams (cand : list sys) : bytes :=
+  flat_map (fun s => B "<" ++ flat_map (fun p => dec_of_nat (fst p) ++ B "@" ++ dec_of_nat (s_ch (snd p)) ++ B ":" ++
+                                          match cursor (chan_at s (s_ch (snd p))) (fst p) with Some c => dec_of_nat c | None => B "none" end ++
+                                          B "/" ++ dec_of_nat (tail (chan_at s (s_ch (snd p)))) ++ B " ") (streams s) ++
+                     B "rd=" ++ match reader s with RIdle => B "idle" | RHave _ => B "have" | RPush _ t => B "push" ++ flat_map (fun c => B "." ++ dec_of_nat c) t | RStopped => B "stopped" end ++
+                     B ">") (firstn 3 cand).
+
 Fixpoint replay (n : nat) (h : list oline) (order : list skey) (next : nat) (states : list sys) : bytes :=
   match h with
   | [] => B "OK"
   | o :: r =>
       let cand := flat_map (successors order next (o_ev o)) states in
       match cand with
-      | [] => B "step-" ++ dec_of_nat n ++ B ":no-run-of-the-model-does-this"
+      | [] => B "step-" ++ dec_of_nat n ++ B ":no-run-of-the-model-does-this" ++ debug_info states ++ debug_streams states
       | _ =>
           match dedupe [] (filter (snap_ok (o_snap o)) cand) with
-          | [] => B "step-" ++ dec_of_nat n ++ B ":visible-state-differs(msg_senders/subscriptions/queues/receivers)"
-          | ok => replay (S n) r (order_of (o_snap o) order) (if is_msg_ev (o_ev o) then S next else next) (firstn 24 ok)
+          | [] => B "step-" ++ dec_of_nat n ++ B ":visible-state-differs(msg_senders/subscriptions/queues/receivers)" ++ debug_info cand
+          | ok => replay (S n) r (order_of (o_snap o) order) (if is_msg_ev (o_ev o) then S next else next) (firstn 64 ok)
           end
       end
   end.
